@@ -4,6 +4,7 @@ package main
 
 import (
 	"fmt"
+	"sort"
 	"go/token"
 	"go/types"
 	"strings"
@@ -135,10 +136,28 @@ func (br *bodyRun) callStatic(st *State, fn *ssa.Function, bindings []Val, argVa
 		fc.note("call to %s treated as effect-free, result unconstrained", full)
 		return fc.freshTyped(st, rt, "ext")
 	}
-	if !fc.light {
-		unsup("call to %s without contract at %s", full, fc.posStr(x.Pos()))
+	fr := fc.inferFrame(fn)
+	if !fr.all {
+		fc.note("call to %s: no contract; result unconstrained, frame inferred syntactically (%d heap keys)", full, len(fr.keys))
+		na := fc.smt.declare("alloc", "Int")
+		fc.assume(st, app(">=", na, st.alloc))
+		st.alloc = na
+		var ks []string
+		for k := range fr.keys {
+			ks = append(ks, k)
+		}
+		sort.Strings(ks)
+		for _, k := range ks {
+			fc.touched[k] = true
+			fc.havocKey(st, k, fr.keys[k])
+		}
+		fc.havocHeld(st)
+		return fc.freshTyped(st, rt, "call")
 	}
-	fc.note("call to %s at %s: no contract, heap havoc'd (light mode)", full, fc.posStr(x.Pos()))
+	if !fc.light {
+		unsup("call to %s without contract at %s (inferred frame: everything, %s)", full, fc.posStr(x.Pos()), fr.why)
+	}
+	fc.note("call to %s at %s: no contract, heap havoc'd (%s)", full, fc.posStr(x.Pos()), fr.why)
 	fc.havocAll(st)
 	return fc.freshTyped(st, rt, "call")
 }
@@ -219,7 +238,20 @@ func (fc *FnCtx) fnModifies(fn *ssa.Function, depth int) ([]keySort, bool) {
 	if fc.eng.isPureExternal(full) {
 		return nil, false
 	}
-	return nil, true
+	fr := fc.inferFrame(fn)
+	if fr.all {
+		return nil, true
+	}
+	var out []keySort
+	for k, s := range fr.keys {
+		out = append(out, mkKS(k, s))
+	}
+	for k, s := range fc.keySort {
+		if strings.HasPrefix(k, "ghost|held|") {
+			out = append(out, mkKS(k, s))
+		}
+	}
+	return out, false
 }
 
 // contractKeys evaluates the assigns clauses on dummy arguments to learn the heap keys.
@@ -668,7 +700,8 @@ func (br *bodyRun) userAsserts(b *ssa.BasicBlock, idx int, ins ssa.Instruction, 
 							}
 							rv, ok := fc.vals[v]
 							if !ok || !(bb.Dominates(b)) {
-								return TV{}, false
+								// not executed on every path to here: an unconstrained value
+								return TV{fc.fresh(v.Type(), "noret"), v.Type()}, true
 							}
 							return TV{rv, v.Type()}, true
 						}
